@@ -1390,7 +1390,7 @@ def _local_aliases(parsed, log) -> None:
 
                 class Drop(ast.NodeTransformer):
                     def visit_Assign(s_, node: ast.Assign):
-                        return ast.copy_location(ast.Expr(value=node.value), node) if id(node) in drop else node
+                        return ast.copy_location(ast.Pass(), node) if id(node) in drop else node    # the chain is read again at every use
                 for i, b in enumerate(fn.body):
                     fn.body[i] = Drop().visit(b)
         if n:
